@@ -91,6 +91,11 @@ PROPS = {
             "n": (400, 8000), "relations": [],
             "rule": "context-free histories over fit/partial_fit/add_arm/remove_arm(+re-add)/predict/predict_expectations; "
                     "non-trivial = at least one training call with >= 1 row and one compared expectation table; distinct by hash of the canonical case"},
+    "C02": {"gen": g_c02, "fields": ("out", "arms", "cold", "status", "beta"), "functional": True, "n": (200, 3000),
+            "relations": [("ridge_oracle", REL.gen_c02, REL.run_c02, (250, 4000))],
+            "rule": "LinGreedy / LinUCB / LinTS without neighbourhood policy, d in 1..4, m in {1,2,3,5}, l2_lambda in {.25,.5,1,2,4,10}, scale=True for single fits, "
+                    "fit + partial_fit*, arms with zero rows, arms added after fit; model at binary64 with its own Gauss-Jordan inverse, compared with rtol 1e-7; "
+                    "relation: numpy.linalg.solve on the per-arm normal equations built from the raw history; non-trivial = >= 1 expectation compared"},
     "C03": {"gen": g_c03, "fields": ("out", "arms", "nhist"), "functional": True, "n": (300, 5000), "relations": [],
             "rule": "Radius/KNearest over every learning policy on integer grids, radii on exact distances, fit + partial_fit*, arm changes; "
                     "non-trivial = >= 1 query answered; distinct by case hash"},
@@ -110,6 +115,15 @@ PROPS = {
             "relations": [("predict_is_argmax", g_c09, REL.run_c09, (300, 6000))],
             "rule": "at every query point of a random history, predict on one deep copy vs first arg-max of predict_expectations on another; "
                     "non-trivial = >= 1 query compared"},
+    "C11": {"gen": g_c11, "fields": ("out", "arms", "nhist", "lsh"), "functional": True, "n": (200, 4000),
+            "relations": [("sign_pattern_collisions", REL.gen_c11, REL.run_c11, (150, 3000))],
+            "rule": "LSHNearest with n_dimensions 1..6, n_tables 1..3 over every learning policy; fit + partial_fit*, hash tables compared bucket by bucket; "
+                    "relation: neighbourhood recomputed from mab._imp.table_to_plane, queries = stored rows, c*stored rows (c in 2^-40..2^30), zero vector, random; "
+                    "rows with a projection within 1e-9 relative of zero are skipped as ambiguous; non-trivial = >= 1 query compared"},
+    "C12": {"gen": g_c12, "fields": ("out", "arms", "nhist", "leaves"), "functional": True, "n": (150, 2000),
+            "relations": [("cell_oracle", REL.gen_c12, REL.run_c12, (120, 2000))],
+            "rule": "Clusters (KMeans / MiniBatchKMeans, 2-3 clusters) and TreeBandit (default, max_depth, min_samples_leaf) over compatible learning policies; cells are read "
+                    "from the fitted scikit-learn objects; relation: statistic recomputed over the rows in the query's cluster / leaf; non-trivial = >= 1 query compared"},
     "C13": {"gen": g_c13, "fields": ("out", "arms", "cold", "cfexp", "stats", "status", "beta"), "functional": False, "n": (300, 6000),
             "relations": [("warm_start_laws", REL.gen_c13, REL.run_c13, (300, 6000))],
             "rule": "context-free and linear bandits, histories with warm_start (zero, duplicate, parallel and one-hot tie feature vectors, quantiles 0/.25/.5/.75/1/random) "
@@ -119,6 +133,12 @@ PROPS = {
             "relations": [("binarizer_vs_preconverted", REL.gen_c14, REL.run_c14, (200, 3000))],
             "rule": "Thompson Sampling with threshold / flip / greater-than binarizers alone and under Radius, KNearest, LSHNearest, Clusters, TreeBandit; "
                     "add_arm may install a new binarizer; twin bandit without binarizer is fed the converted rewards; non-trivial = >= 1 training call"},
+    "C17": {"gen": g_any, "fields": ("out", "arms", "cold", "cfexp", "stats", "status", "nhist"), "functional": False, "n": (150, 2000),
+            "relations": [("rejected_call_changes_nothing", REL.gen_c17, REL.run_c17, (400, 8000))],
+            "rule": "19 classes of invalid call (length mismatch, non-finite / non-binary rewards, contexts missing / superfluous / wrong row count / wrong width, "
+                    "duplicate / None / NaN / Inf / unknown arms, four bad warm_start arguments, too few rows for k-means, wrong container types, predict without contexts, 1-D contexts) "
+                    "placed at a random position of a random valid history of any policy combination, followed by the rest of the history plus partial_fit and queries on the bandit "
+                    "and on a deep copy taken before the call; non-trivial = the call was rejected"},
     "C20": {"gen": g_any, "fields": ("out", "arms"), "functional": False, "n": (150, 2000),
             "relations": [("relabel_permute_shift_scale", REL.gen_c20, REL.run_c20, (300, 6000))],
             "rule": "relabelling int->str/float/negative int on every policy combination; random row permutations of each training batch (context-free, linear, Radius, LSH); "
